@@ -25,7 +25,7 @@ def streams(seed, tier):
     import hc_streams
     # Client and Server (C03_client_total / C03_server_total) are tied through the endpoint streams: raw peers
     # forging every frame type and sending raw bytes, real clients, all API calls
-    scale = 10 if tier == "thorough" else 1
+    scale = _hc.EP_THOROUGH_FACTOR if tier == "thorough" else 1
     ep = [hc_streams.ep_lifecycle(seed, 30 * scale), hc_streams.ep_forge(seed, 40 * scale), hc_streams.ep_amplify(seed, 30 * scale)]
     return _hc.build_streams(["hostile", "pair", "tx", "rate"], seed, tier, 1.0) + C16.streams(seed, tier) + ep
 
